@@ -6,6 +6,7 @@ for the dimensions bounded strings cannot reach (ring count, rings open at once,
 Oracle: O1 re-reads every output (syntax, ring labels, self/duplicate bonds) and an independent per-atom
 bond-order sum + explicit H is compared with the capacity looked up in get_semantic_constraints().
 """
+import functools
 import itertools
 import re
 
@@ -35,6 +36,7 @@ ALPHABETS = {"val": A_VAL, "chg": A_CHG}
 HUGE = {"?": 1000}
 
 
+@functools.lru_cache(maxsize=None)
 def families(tier):
     """(family name, table name or dict, list of (label, string))"""
     thorough = tier == "thorough"
